@@ -93,8 +93,15 @@ inductive Trans (c : Cfg) (s : State) (t : Tid) : State → Prop
       Trans c s t ({ s with lock := none }.setLoc t { s.loc t with pc := .done })
   | rdAcq : (s.loc t).pc = .rdAcq → s.lock = none →
       Trans c s t ({ s with lock := some t }.setLoc t { s.loc t with pc := .rdPick })
-  | rdPick : (s.loc t).pc = .rdPick →
+  | rdPick : (s.loc t).pc = .rdPick → c.pick t = .latest →
       Trans c s t (s.setLoc t { s.loc t with pc := .rdAdd, rver := s.lastVersion })
+  | rdPickId (k : Nat) (v : Nat × Content) : (s.loc t).pc = .rdPick → c.pick t = .byId k →
+      s.versions.find? (fun v => v.1 == k) = some v →
+      Trans c s t (s.setLoc t { s.loc t with pc := .rdAdd, rver := v })
+  | rdPickMiss : (s.loc t).pc = .rdPick →
+      Trans c s t (s.setLoc t { s.loc t with pc := .rdFail })
+  | rdFail : (s.loc t).pc = .rdFail →
+      Trans c s t ({ s with lock := none }.setLoc t { s.loc t with pc := .done })
   | rdAdd : (s.loc t).pc = .rdAdd →
       Trans c s t ({ s with readers := t :: s.readers }.setLoc t { s.loc t with pc := .rdRel })
   | rdRel : (s.loc t).pc = .rdRel →
@@ -185,7 +192,14 @@ theorem step_trans {c : Cfg} {s s' : State} {t : Tid} (hs : step c s t = some s'
     split at hs
     · simp only [Option.some.injEq] at hs; subst hs; exact .rdAcq hpc (by assumption)
     · contradiction
-  case rdPick => simp only [Option.some.injEq] at hs; subst hs; exact .rdPick hpc
+  case rdPick =>
+    split at hs
+    · simp only [Option.some.injEq] at hs; subst hs; exact .rdPick hpc (by assumption)
+    · split at hs
+      · simp only [Option.some.injEq] at hs; subst hs; exact .rdPickId _ _ hpc (by assumption) (by assumption)
+      · simp only [Option.some.injEq] at hs; subst hs; exact .rdPickMiss hpc
+    · simp only [Option.some.injEq] at hs; subst hs; exact .rdPickMiss hpc
+  case rdFail => simp only [Option.some.injEq] at hs; subst hs; exact .rdFail hpc
   case rdAdd => simp only [Option.some.injEq] at hs; subst hs; exact .rdAdd hpc
   case rdRel => simp only [Option.some.injEq] at hs; subst hs; exact .rdRel hpc
   case rdRet => simp only [Option.some.injEq] at hs; subst hs; exact .rdRet hpc
